@@ -142,18 +142,39 @@ def check_filler(ctx, rule, f, bufparam, group_count_names, label):
                 else:
                     ctx.ok(rule, f, b.stmt, 'corner cells: fill of position %d spans all of position %d' % (b.pos, a.pos))
     # I3: the group axis (position 0): else-branch of `i < <real items>` repeats the last real item
-    ifs = [n for n in ast.walk(f.node) if isinstance(n, ast.If) and isinstance(n.test, ast.Compare) and
-           len(n.test.ops) == 1 and isinstance(n.test.ops[0], ast.Lt) and U(n.test.comparators[0]) in group_count_names]
+    # the split `item < <real items of the group>` in any spelling: i < N, N > i (real items in the body),
+    # i >= N, N <= i, not i < N (real items in the else branch)
+    ifs = []
+    for n in ast.walk(f.node):
+        if not isinstance(n, ast.If):
+            continue
+        t, neg = n.test, False
+        while isinstance(t, ast.UnaryOp) and isinstance(t.op, ast.Not):
+            t, neg = t.operand, not neg
+        if not (isinstance(t, ast.Compare) and len(t.ops) == 1):
+            continue
+        l, op, r = t.left, t.ops[0], t.comparators[0]
+        real_in_body = None
+        if U(r) in group_count_names and isinstance(l, ast.Name):
+            real_in_body = True if isinstance(op, ast.Lt) else False if isinstance(op, ast.GtE) else None
+            cnt_ = U(r)
+        elif U(l) in group_count_names and isinstance(r, ast.Name):
+            real_in_body = True if isinstance(op, ast.Gt) else False if isinstance(op, ast.LtE) else None
+            cnt_ = U(l)
+        if real_in_body is None:
+            continue
+        if neg:
+            real_in_body = not real_in_body
+        ifs.append((n, cnt_, n.orelse if real_in_body else n.body))
     if not ifs:
         ctx.fail(rule, f, f.name, '%s: no `i < %s` split between real and replicated items' % (label, '/'.join(group_count_names)))
         return
-    g = ifs[0]
-    cnt = U(g.test.comparators[0])
-    if not g.orelse:
+    g, cnt, repl = ifs[0]
+    if not repl:
         ctx.fail(rule, f, g, '%s: items beyond the real ones in the last group are left zero (no else branch)' % label,
                  key_extra='group')
         return
-    stores = [s for s in ast.walk(ast.Module(body=g.orelse, type_ignores=[])) if isinstance(s, ast.Assign)]
+    stores = [s for s in ast.walk(ast.Module(body=repl, type_ignores=[])) if isinstance(s, ast.Assign)]
     # the last real item of the group: ordinal <count> - 1, or the last trace of the source (2D: `.trace[-1]`)
     marker = lambda src: ('%s - 1' % cnt) in src or '.trace[-1]' in src
     flagged = set()
@@ -182,9 +203,9 @@ def check_filler(ctx, rule, f, bufparam, group_count_names, label):
         ok = False
         seen.append('no store into the buffer')
     if ok:
-        ctx.ok(rule, f, g.orelse[0], '%s: replicated items re-read the last real item of the group (%s - 1 / [-1])' % (label, cnt))
+        ctx.ok(rule, f, repl[0], '%s: replicated items re-read the last real item of the group (%s - 1 / [-1])' % (label, cnt))
     else:
-        ctx.fail(rule, f, g.orelse[0], '%s: the else-branch of `i < %s` does not re-read the last real item (%s - 1): %s' % (
+        ctx.fail(rule, f, repl[0], '%s: the else-branch of `i < %s` does not re-read the last real item (%s - 1): %s' % (
             label, cnt, cnt, seen), key_extra='group')
 
 
